@@ -70,13 +70,24 @@ def _classes(pyrex):
                     return True
             return False
 
+    # the same two strings behind a catch-all trigger signature that forwards to the explicit
+    # one: both have the *same* signature (self, **kwargs) and accept different keywords
+    class StrKA(StrA):
+        def triggered(self, **kwargs):
+            return super().triggered(**kwargs)
+
+    class StrKB(StrB):
+        def triggered(self, **kwargs):
+            return super().triggered(**kwargs)
+
     class Group(Detector):
         def set_positions(self, children):
             for c in children:
                 self.subsets.append(make_detector(c))
 
     def make_detector(spec):
-        cls = {"StrPlain": StrPlain, "StrA": StrA, "StrB": StrB, "Group": Group}[spec["cls"]]
+        cls = {"StrPlain": StrPlain, "StrA": StrA, "StrB": StrB, "StrKA": StrKA, "StrKB": StrKB,
+               "Group": Group}[spec["cls"]]
         if spec["cls"] == "Group":
             return Group(spec["children"])
         return cls(spec["x"], spec["y"], spec["n"], z0=spec.get("z0", -100.0))
@@ -91,6 +102,7 @@ def _classes(pyrex):
         test_antenna_positions = False
 
     _classes.cache = dict(Holder=Holder, LaxCombined=LaxCombined, ThrAntenna=ThrAntenna, StrPlain=StrPlain, StrA=StrA, StrB=StrB,
+                          StrKA=StrKA, StrKB=StrKB,
                           Group=Group, make=make_detector)
     return _classes.cache
 
@@ -99,6 +111,9 @@ ACCEPTS_BUILD = {"StrA": {"antenna_class", "threshold"},
                  "StrB": {"antenna_class", "threshold", "tag"}}
 ACCEPTS_TRIG = {"StrA": {"require_mc_truth", "min_hits"},
                 "StrB": {"require_mc_truth", "window"}}
+for _k, _base in (("StrKA", "StrA"), ("StrKB", "StrB")):
+    ACCEPTS_BUILD[_k] = ACCEPTS_BUILD[_base]
+    ACCEPTS_TRIG[_k] = ACCEPTS_TRIG[_base]
 
 
 def spec_positions(spec):
@@ -207,7 +222,7 @@ class C19Detector(Machine):
     # ------------------------------------------------------------------
     def _rand_spec(self, rng, depth):
         if depth <= 1 or rng.chance(0.3):
-            return {"cls": rng.pick(["StrPlain", "StrA", "StrB"]),
+            return {"cls": rng.pick(["StrPlain", "StrA", "StrB", "StrKA", "StrKB", "StrKA", "StrKB"]),
                     "x": float(rng.randint(-50, 50)), "y": float(rng.randint(-50, 50)),
                     "n": rng.randint(1, 4)}
         return {"cls": "Group", "children": [self._rand_spec(rng, depth - 1)
@@ -235,7 +250,7 @@ class C19Detector(Machine):
                 kw["tag"] = rng.pick(["a", "b"])
             return {"op": "make", "slot": rng.randrange(N_SLOTS), "spec": spec, "kw": kw}
         if k == "late_build":
-            leaves = [{"cls": rng.pick(["StrA", "StrA", "StrB", "StrPlain"]), "x": float(10 * j),
+            leaves = [{"cls": rng.pick(["StrA", "StrB", "StrPlain", "StrKA", "StrKB", "StrKA", "StrKB"]), "x": float(10 * j),
                        "y": float(rng.randint(-20, 20)), "n": rng.randint(1, 3)} for j in range(rng.randint(3, 5))]
             kw = {}
             if rng.chance(0.7):
@@ -631,7 +646,7 @@ class C19Detector(Machine):
         mc = op["mc"]
         kw = dict(op["kw"])
         is_combined = isinstance(a, self.pyrex.detector.CombinedDetector)
-        custom_top = type(a).__name__ in ("StrA", "StrB")
+        custom_top = type(a).__name__ in ACCEPTS_TRIG
         if not is_combined:
             if custom_top:
                 kw = {k: v for k, v in kw.items() if k in ACCEPTS_TRIG[type(a).__name__]}
